@@ -395,7 +395,12 @@ func ruleClientRouting(c *chk.Ctx) {
 	for _, f := range pkgFuncs(c, c.M.Pkg) {
 		ir.Instrs(f, func(ins ssa.Instruction) {
 			lk, ok := ins.(*ssa.Lookup)
-			if !ok || !chk.LoadsField(lk.X, c.M.CPending) || lk.CommaOk {
+			if !ok || !chk.LoadsField(lk.X, c.M.CPending) {
+				return
+			}
+			// only lookups keyed by an inbound message's id (the watcher looks its own id up)
+			inbound := keyMessage(c, c.P.Canon(lk.Index)) != nil
+			if !inbound {
 				return
 			}
 			n++
